@@ -11,6 +11,12 @@ T_PATHS = 'bounded-exhaustive exploration of the row transition system (all row 
 T_HIST = 'explicit-state BFS over call histories on live objects with reflection snapshots'
 
 CHECKS = {
+    'C18': ("9 non-kern headers (text, dynam, dyn, harm, mxhm, fing and three unknown ones) x a corpus of one token per grammar alternative, free text, malformed texts, look-alikes and ALL "
+            "strings of length <=2 over a 49-character alphabet (thorough: + all length-3 strings over 25 characters; 2.6k / 18k cells per header): import never raises; whether a cell is "
+            "shared structure is decided by an independent recogniser (regular expressions from the Humdrum syntax) - then category and export must be those of a **kern spine, otherwise "
+            "the token must be verbatim with the spine type's own category; a shared importer instance must agree with a fresh one. Document level: the same rows under every type give "
+            "the same measure count and barline stages.",
+            'Trusted: the recogniser in kv/props/c18.py. Prefix parses (=foo -> =) are a known finding shared with C12.', T_GRID, 'DESIGN.md §3 C18'),
     'C12': ("(a) Every token history up to depth 2 (thorough 3) over 12 valid + 17 malformed tokens on ONE live spine importer of each of 8 spine types, followed by closure of the importer's "
             "reflection-fingerprint graph: the outcome for a token must equal the outcome on a fresh importer. (b) Four skeleton documents (1-3 spines incl. root/dynam/harm/mxhm, a split) x "
             "every placement of one malformed cell x 17 malformed texts, every pair of placements (thorough: every triple on the small skeleton), and a blank line before the damage; "
